@@ -28,12 +28,12 @@ SPEC = dict(
         job('dec2', 'h_codec', 'dec2', cases=-1, procs=16, rec=True),
         job('dec3', 'h_codec', 'dec3', cases=-1, procs=16),
         job('dec4', 'h_codec', 'dec4', cases={Q: 0, T: -1}, procs=16),
-        job('dec-rand', 'h_codec', 'dec-rand', cases={Q: 40000, T: 1500000}, procs=16, rec=True),
-        job('int', 'h_codec', 'int', cases={Q: 401, T: 4001}, procs=16, rec=True),
-        job('hex', 'h_codec', 'hex', cases={Q: 500, T: 6000}, procs=16, rec=True),
+        job('dec-rand', 'h_codec', 'dec-rand', cases={Q: 80000, T: 1500000}, procs=16, rec=True),
+        job('int', 'h_codec', 'int', cases={Q: 802, T: 4001}, procs=16, rec=True),
+        job('hex', 'h_codec', 'hex', cases={Q: 1000, T: 6000}, procs=16, rec=True),
         job('b64', 'h_codec', 'b64', cases=-1, procs=16, rec=True),
         job('b64-3', 'h_codec', 'b64-3', cases={Q: 0, T: -1}, procs=16, rec=True),
-        job('b64-rand', 'h_codec', 'b64-rand', cases={Q: 6000, T: 200000}, procs=16, rec=True),
+        job('b64-rand', 'h_codec', 'b64-rand', cases={Q: 12000, T: 200000}, procs=16, rec=True),
         job('b64-bytes', 'h_codec', 'b64-bytes', cases={Q: 96 + 400, T: 96 + 10000}, procs=16, probes=["String.fromBase64/byte>=0x80/ubsan:index-N-out-of-bounds-for-type-'unsigned-char-[N]'", 'String.fromBase64/byte>=0x80']),
     ],
     floors={Q: dict(code_points=1114112, encodings_compared=1112064, inverse_checks=2228224, truncated_inputs=3000000, array_overload_groups=17408, out_of_range_code_points=4096,
